@@ -331,12 +331,24 @@ def _check_status(run, repo, world, mod, spec):
     run.ob("R-RECONNECT", Q + "#interval", not badw,
            "a reconnection attempt can be made without waiting "
            "reconnect_interval", where(mod, fn))
-    tests = [unparse(n.ast) for n in cfg.reachable if n.kind == "test"]
+    from .. import astq as _aq
+    # (locals holding the limit / the incremented counter read as what they
+    # hold)
+    tests = [_aq.canon(fn, n.ast) for n in cfg.reachable if n.kind == "test"]
+    incr_aug = any(n.kind == "stmt" and unparse(n.ast) ==
+                   "self._reconnect_count += 1" for n in cfg.reachable)
+    incr_asg = any(
+        n.kind == "stmt" and isinstance(n.ast, ast.Assign) and unparse(
+            n.ast.targets[0]) == "self._reconnect_count" and _aq.canon(
+                fn, n.ast.value) in ("self._reconnect_count + 1",
+                                     "1 + self._reconnect_count")
+        for n in cfg.reachable)
     run.ob("R-RECONNECT", Q + "#limit-test",
-           "self._reconnect_limit is not None" in tests and
-           "self._reconnect_count > self._reconnect_limit" in tests and any(
-               n.kind == "stmt" and unparse(n.ast) ==
-               "self._reconnect_count += 1" for n in cfg.reachable),
+           "self._reconnect_limit is not None" in tests and ((
+               incr_aug and
+               "self._reconnect_count > self._reconnect_limit" in tests) or (
+               incr_asg and
+               "self._reconnect_count + 1 > self._reconnect_limit" in tests)),
            "the attempt counter must be incremented and compared with the "
            "configured limit (None = unlimited): tests %s" % tests,
            where(mod, fn))
